@@ -42,6 +42,10 @@ func (e *Engine) intrinsic(fr *frame, name string, args []value) (value, bool) {
 		return scalar(types.Int), true
 	case "vUint":
 		return scalar(types.Uint), true
+	case "vF64":
+		return scalar(types.Float64), true
+	case "vF32":
+		return scalar(types.Float32), true
 	case "vString", "vBytes":
 		n := int(asInt64(args[1]))
 		b := make([]value, n)
